@@ -93,7 +93,7 @@ structure ParamsWF (p : Params) : Prop where
   fixed : FixedWF p.fixed
   len : p.counts.length = p.fixed.order
   counts : ∀ c ∈ p.counts, c < 2^64
-  mult : floatLtOne p.fixed.multBits = false
+  mult : floatNotGeOne p.fixed.multBits = false
 
 theorem sanity_eq_ref : sanityBytes = sanityRef := by decide
 theorem sanity_length : sanityBytes.length = sizeofSanity := by decide
